@@ -1181,6 +1181,90 @@ Section Proofs.
   Proof. intros h s. apply cache_transparent. constructor. Qed.
 
   (* ---------------------------------------------------------------------------------------------- *)
+  (*  add commands under the lock: every schedule is some sequential order                            *)
+  (* ---------------------------------------------------------------------------------------------- *)
+  Definition add_cmd (cmds : list cmd) (s : fsys) (i : nat) : fsys :=
+    add_word (fst (cmd_at cmds i)) (snd (cmd_at cmds i)) s.
+  Definition linv (cmds : list cmd) (s0 : fsys) (st : lstate) : Prop :=
+    let '(s, holder, ord) := st in
+    s = fold_left (add_cmd cmds) ord s0 /\ NoDup ord /\
+    match holder with
+    | Some (j, d) => d = cmd_load is_lower lower (cmd_at cmds j) s /\ ~ In j ord
+    | None => True
+    end.
+  Lemma finished_in : forall i ord, finished i ord = true <-> In i ord.
+  Proof.
+    intros i ord. unfold finished. rewrite existsb_exists. split.
+    - intros [x [Hin E]]. apply Nat.eqb_eq in E. now subst.
+    - intro H. exists i. split; [exact H|apply Nat.eqb_refl].
+  Qed.
+  Lemma cmd_save_load : forall c s,
+    cmd_save is_lower lower iter_order c (cmd_load is_lower lower c s) s = add_word (fst c) (snd c) s.
+  Proof.
+    intros [sc w] s. unfold cmd_save, cmd_load, DictIO.add_word, DictIO.add_to. cbn [fst snd].
+    now destruct (target sc).
+  Qed.
+  Lemma lstep_inv : forall cmds s0 st i, linv cmds s0 st -> linv cmds s0 (lstep is_lower lower iter_order cmds st i).
+  Proof.
+    intros cmds s0 [[s holder] ord] i [Hs [Hnd Hh]]. unfold lstep.
+    destruct (finished i ord) eqn:Ef; [now repeat split|].
+    assert (Hni : ~ In i ord) by (intro H; apply finished_in in H; congruence).
+    destruct holder as [[j d]|].
+    - destruct (Nat.eqb j i) eqn:Ej; [|now repeat split].
+      apply Nat.eqb_eq in Ej. subst j. destruct Hh as [Hd _]. subst d. rewrite cmd_save_load.
+      split; [|split; [|exact I]].
+      + rewrite fold_left_app. cbn [fold_left]. now rewrite <- Hs.
+      + apply (Permutation_NoDup (Permutation_cons_append ord i)). now constructor.
+    - split; [exact Hs|]. split; [exact Hnd|]. now split.
+  Qed.
+  (* whatever the schedule: the disk is the result of the finished commands executed one after the other in
+     the order in which they finished, no command finishes twice, and a command that holds the lock has loaded
+     the dictionary as it is on disk now (nobody wrote in between) *)
+  Theorem locked_adds_serial : forall cmds s0 sched,
+    let '(s, holder, ord) := run_locked is_lower lower iter_order cmds s0 sched in
+    s = run_fs s0 (map (fun i => AddWord (fst (cmd_at cmds i)) (snd (cmd_at cmds i))) ord) /\ NoDup ord /\
+    match holder with
+    | Some (j, d) => d = cmd_load is_lower lower (cmd_at cmds j) s /\ ~ In j ord
+    | None => True
+    end.
+  Proof.
+    intros cmds s0 sched.
+    assert (Hinv : linv cmds s0 (run_locked is_lower lower iter_order cmds s0 sched)).
+    { unfold run_locked. assert (H0 : linv cmds s0 (s0, None, [])) by (repeat split; constructor).
+      revert H0. generalize (s0, @None (nat * dict), @nil nat). induction sched as [|i r IH]; intros st H; [exact H|].
+      cbn [fold_left]. apply IH. now apply lstep_inv. }
+    destruct (run_locked is_lower lower iter_order cmds s0 sched) as [[s holder] ord].
+    destruct Hinv as [Hs [Hnd Hh]]. split; [|now split]. rewrite Hs. clear.
+    revert s0. induction ord as [|i r IH]; intro s0; [reflexivity|].
+    cbn [map fold_left]. rewrite run_fs_cons. cbn [DictIO.step_op fst]. apply IH.
+  Qed.
+  (* a schedule that polls every command often enough finishes them all: two polls per command in a row
+     are enough *)
+  Lemma locked_adds_complete : forall cmds s0 n,
+    n = length cmds ->
+    snd (run_locked is_lower lower iter_order cmds s0 (flat_map (fun i => [i; i]) (seq 0 n))) = seq 0 n.
+  Proof.
+    intros cmds s0 n _. unfold run_locked.
+    assert (H : forall k m s ord, (forall i, In i ord -> i < k) ->
+               exists s', fold_left (lstep is_lower lower iter_order cmds) (flat_map (fun i => [i; i]) (seq k m)) (s, None, ord)
+                          = (s', None, ord ++ seq k m)).
+    { intros k m. revert k. induction m as [|m IH]; intros k s ord Hlt.
+      - exists s. cbn. now rewrite app_nil_r.
+      - assert (Ef : finished k ord = false).
+        { destruct (finished k ord) eqn:E; [|reflexivity]. apply finished_in, Hlt in E. lia. }
+        cbn [seq flat_map app fold_left].
+        replace (lstep is_lower lower iter_order cmds (s, None, ord) k)
+          with (s, Some (k, cmd_load is_lower lower (cmd_at cmds k) s), ord) by (unfold lstep; now rewrite Ef).
+        replace (lstep is_lower lower iter_order cmds (s, Some (k, cmd_load is_lower lower (cmd_at cmds k) s), ord) k)
+          with (cmd_save is_lower lower iter_order (cmd_at cmds k) (cmd_load is_lower lower (cmd_at cmds k) s) s, @None (nat * dict), ord ++ [k])
+          by (unfold lstep; now rewrite Ef, Nat.eqb_refl).
+        destruct (IH (S k) (cmd_save is_lower lower iter_order (cmd_at cmds k) (cmd_load is_lower lower (cmd_at cmds k) s) s) (ord ++ [k])) as [s' Hs'].
+        + intros i Hi. apply in_app_or in Hi. destruct Hi as [Hi|[Hi|[]]]; [apply Hlt in Hi; lia|lia].
+        + exists s'. rewrite Hs'. now rewrite <- app_assoc. }
+    destruct (H 0 n s0 [] (fun i (Hi : In i []) => match Hi with end)) as [s' Hs']. now rewrite Hs'.
+  Qed.
+
+  (* ---------------------------------------------------------------------------------------------- *)
   (*  harper_wasm::Linter: the lint dictionary follows the user dictionary                            *)
   (* ---------------------------------------------------------------------------------------------- *)
   Lemma entry_eqb_eq : forall a b : entry, entry_eqb a b = true -> a = b.
@@ -1462,3 +1546,16 @@ Proof.
   split; [intro l; apply Permutation_sym, Permutation_rev|]. split; [apply id_order_perm|].
   vm_compute. split; [discriminate|reflexivity].
 Qed.
+
+(* FC07g, repaired by cfbe845 (history): without the lock two add commands for the user dictionary that are polled
+   alternately both load the old (empty) dictionary; the second save overwrites the first: alpha is lost without
+   any crash.  Under the lock the same schedule keeps both words (the second command waits). *)
+Definition cmds_ab : list cmd := [(SUser, w_alpha); (SUser, w_beta)].
+Lemma concurrent_old_refuted :
+  let '(s, _, ord) := run_unlocked_old a_is_lower a_lower id_order cmds_ab fs_empty [0; 1; 0; 1] in
+  ord = [0; 1] /\ awords UserP s = Some [w_beta].
+Proof. vm_compute. split; reflexivity. Qed.
+Lemma concurrent_example :
+  let '(s, holder, ord) := run_locked a_is_lower a_lower id_order cmds_ab fs_empty [0; 1; 0; 1; 1; 0; 1] in
+  ord = [0; 1] /\ holder = None /\ awords UserP s = Some [w_alpha; w_beta].
+Proof. vm_compute. repeat split. Qed.
